@@ -243,6 +243,15 @@ def run(cx):
         ok = t[0] == "call" and name_matches(t[1], "ed25519::pkcs8::PublicKeyBytes::to_bytes") and term_has_call(t, "DecodePublicKey::from_public_key_der") \
             and term_has_call(t, "TbsCertificate::public_key") and term_has_call(t, "FromDer::from_der") and mentions_param(t, "certificate")
         ob.require(ok, "peer_id_from_certificate/flow", f"PeerId built from {show(t)[:160]}", pb.path)
+        # ... and that is the only thing the function ever answers with: a pure function of the certificate handed in (no memo,
+        # no table keyed by some other part of the certificate, no state written from unverified input)
+        r0 = po.of_local(0)
+        okv = [x for x in walk(r0) if x[0] == "agg" and str(x[2]).endswith("Result::Ok")]
+        pure = bool(okv) and all(strip_identity(x[3][0])[0] == "agg" and str(strip_identity(x[3][0])[2]).endswith("PeerId::PeerId") and mentions_param(x[3][0], "certificate")
+                                 and term_has_call(x[3][0], "TbsCertificate::public_key") for x in okv)
+        ob.require(pure, "peer_id_from_certificate/only-answer", f"peer_id_from_certificate can answer with something other than the key parsed from this certificate: {show(r0)[:200]}", pb.path)
+        statics = [c for b_ in [pb] + list(prog.children(pb)) for c in b_.calls() if not b_.is_cleanup(c.bb) and name_matches(c.fn, ("OnceLock::get_or_init", "LazyLock::force", "Lazy::force", "OnceCell::get_or_init", "Mutex::lock", "RwLock::read", "RwLock::write"))]
+        ob.require(not statics, "peer_id_from_certificate/stateless", f"peer_id_from_certificate touches shared state ({[c.fn.split('::')[-1] for c in statics][:3]})", pb.path)
         # Connection
         check_constructed_only_in(ob, prog, "anemo::connection::Connection", ["anemo::connection::Connection::new", "<anemo::connection::Connection as core::clone::Clone>::clone"])
         check_field_writers(ob, prog, "anemo::connection::Connection", "peer_id", [], kinds=("mutref", "write"))
